@@ -62,6 +62,9 @@ const flusherFrame = ".(*refreshDebouncer).flusher"
 
 var errScripted = errors.New("verif: scripted refresh error")
 
+// refreshes let through because a debounce() raced the flusher's timer drain (see debConductor.mStaleTimer)
+var staleTimerRefreshes int64
+
 // one waiter of a debouncer schedule
 type dwaiter struct {
 	ch    <-chan error
@@ -105,6 +108,12 @@ type debConductor struct {
 	mPend, mCur                                    []int
 	mHasPend                                       bool
 	mExp                                           []byte
+	// a debounce() called while the flusher is inside the refresh function re-arms the timer; if that timer fires
+	// while the flusher, back from the refresh, is between its timer.Stop() and its non-blocking drain of timer.C
+	// (timer-channel semantics of modules with a go directive < 1.23: Stop() does not wait for a send in progress),
+	// the value survives the drain and the flusher runs ONE refresh nobody is waiting for. The model has no such
+	// step; the conductor lets that refresh through (at most one per such debounce) and goes on waiting.
+	mStaleTimer int
 }
 
 func (c *debConductor) flusherGone() bool { return labelledIn(c.label, flusherFrame) == 0 }
@@ -183,6 +192,13 @@ func (c *debConductor) await() string {
 	}
 	cond := func() bool {
 		ref, ws := c.cheap()
+		if ref && !c.mRefreshing && !c.mExited && c.mStaleTimer > 0 && ws == string(c.mExp) {
+			c.mStaleTimer--
+			c.fins++
+			c.release <- nil
+			atomic.AddInt64(&staleTimerRefreshes, 1)
+			return false
+		}
 		if ref == c.mRefreshing && ws == string(c.mExp) {
 			if ref {
 				got = "ref:" + ws
@@ -255,6 +271,9 @@ func (c *debConductor) act(a string) bool {
 		c.d.Debounce()
 		if !c.mStopped {
 			c.mTimer = true
+			if c.mRefreshing {
+				c.mStaleTimer = 1
+			}
 		}
 	case "stop":
 		done := make(chan struct{})
